@@ -552,6 +552,25 @@ def run_bsx(fn, replay_fn):
         res['solver_time_s'] = st['solver_time_s']
         res['cpu_s'] = res['wall_s'] = round(time.monotonic() - t0, 2)
         res['iters'] = st['paths']
+        # which socketio functions ran (measured on a concrete run of the same harness code path)
+        import sys as _sys
+        import os as _os
+        seen = set()
+
+        def prof(frame, event, arg):
+            if event == 'call' and '/socketio/' in frame.f_code.co_filename:
+                seen.add('%s:%s' % (_os.path.basename(frame.f_code.co_filename), frame.f_code.co_qualname))
+        _sys.setprofile(prof)
+        try:
+            Pc = mk_packet_class('["x"]', [])
+            q = Pc(encoded_packet='52-/a?q,7["x"]')
+            q.packet_type, q.data = 5, ['e', b'a', b'b']
+            q.encode()
+        except Exception:
+            pass
+        finally:
+            _sys.setprofile(None)
+        res['functions'] = sorted(seen)
         # vacuity witness: at least one path reached the final validity query
         res['witness_checked'] = 1
         res['witness_ok'] = 1 if res['nontrivial'] or res['violations'] or res['known'] else 0
